@@ -709,7 +709,8 @@ def one_monitor_case(ctx, rng, spec, changed=None):
         kw["iter"] = 100
     st, msg = drive.run(net, **kw)
     ctx.count("monitor_run_" + st)
-    if st not in ("ok", "PipeflowNotConverged") and not (st == "UserWarning" and "controlled junction" in msg):
+    if st not in ("ok", "PipeflowNotConverged") and not (
+            st == "UserWarning" and ("controlled junction" in msg or "direction change in circulation pump" in msg)):
         # a valid net (every reference resolves, flags are booleans) may fail to converge; nothing else may be raised
         ctx.violation({"monitor": "exception", "exception": st},
                       "pipeflow on a valid net raises %s: %s" % (st, msg[:160]),
